@@ -306,3 +306,28 @@ def array_convert_program(rng):
         n = rng.choice([NONE_I, NONE_I, 0, 1, 3, 4, 6, 8, 12, 16, 24, 32, 64, 65, -1])
         calls.append({'op': 'dtypeinfo', 'sa': [name], 'ia': [n, rng.randint(0, 2) if n != NONE_I and n >= 0 else 0]})
     return {'calls': calls}
+
+
+def array_float_op_program(rng):
+    """element-wise arithmetic with scalars on float-valued Arrays (results of Python's float arithmetic are oracle
+    inputs; the encoding into the dtype, failure atomicity and the dtype of the result are judged)"""
+    calls = []
+    name, n = rng.choice(FLOAT_DT)
+    k = rng.choice([0, 1, 2, 3, 5])
+    items = [item_value(rng, name, n) for _ in range(k)]
+    mk = {'op': 'anew', 'rid': 'a', 'sa': [name, 'list'], 'ia': [n, rng.randint(0, 2)], 'va': items}
+    if rng.random() < 0.2 and n > 1:
+        mk['xs'] = [_d.lit('bin', _d.rand_bits(rng, rng.randint(1, n - 1)))]
+    calls.append(mk)
+    for _ in range(rng.randint(3, 7)):
+        opn = rng.choice(['add', 'sub', 'mul', 'truediv', 'floordiv', 'mod', 'mul', 'add'])
+        y = rng.choice([0, 1, 2, -1, 3, 0.5, -0.25, 2.0, 1e3, 1e-3, 0.0, 7, 1e30, -3.5, 1e300])
+        val = enc_int(y) if isinstance(y, int) else enc_float(y)
+        if rng.random() < 0.6:
+            calls.append({'op': 'aopf', 't': 'a', 'rid': 'r', 'sa': [opn], 'va': [val]})
+            if rng.random() < 0.3:
+                calls.append({'op': 'atolist', 't': 'r'})
+        else:
+            calls.append({'op': 'aiopf', 't': 'a', 'sa': [opn], 'va': [val]})
+            calls.append({'op': 'adata', 't': 'a'})
+    return {'calls': calls}
